@@ -14,6 +14,8 @@ Proof. exact claim_comment_same_vis. Qed.
 Theorem C04_unclaim_comment : forall cur d r now d', unclaim_comment cur d = (r, now, d') -> same_vis d' d.
 Proof. exact unclaim_comment_same_vis. Qed.
 
+(* no restriction on the shifted range: any number of visible tokens, value-equal tokens included (tokens are
+   told apart by identity = id); first/last need not even be in order *)
 Theorem C04_shift_ignored : forall d first last bw d', shift_ignored d first last bw = Some d' -> same_vis d' d.
 Proof. exact shift_ignored_same_vis. Qed.
 
